@@ -10,7 +10,7 @@ if ! (cd "$tmp/repo" && patch -p1 --fuzz=3 -s < $( [ -f /verif/seeded/$prop/$var
 if ! (cd "$tmp/repo" && GOFLAGS=-mod=mod GOPROXY=off go build ./... ); then echo "BUILD-FAILED $prop/$var"; exit 3; fi
 rc=0
 for p in $prop "$@"; do
-  /verif/bin/gowp check -repo "$tmp/repo" -verif "$tmp/verif" -prop $p -tier quick 2>&1 | grep "VIOLATION\|KNOWN\|^property" | sed "s|$tmp|TMP|g" | cut -c1-220
+  /verif/bin/gowp check -repo "$tmp/repo" -verif "$tmp/verif" -prop $p -tier quick 2>&1 | grep "VIOLATION\|KNOWN\|^property" | sed "s|$tmp|TMP|g" | cut -c1-400
 done
 for f in "$tmp"/verif/replay/*/*.json; do [ -f "$f" ] && python3 -c "
 import json,sys
